@@ -116,7 +116,7 @@ def fixMap? (s : Sexp) : Option FixMap :=
 
 def sRun (r : RunResult) : Sexp :=
   .list [sRow r.estimates,
-    (match r.sdcorr with | some x => sRow x | none => .atom "none"),
+    sRow r.sdcorr,
     (match r.se with
       | .noSE => .atom "noSE"
       | .aborted => .atom "aborted"
